@@ -59,6 +59,15 @@ def add_defects(rng, tasks):
         elif k == "dup" and tasks[x].deps:
             d = rng.choice(tasks[x].deps)
             tasks[x].deps.insert(rng.randrange(len(tasks[x].deps) + 1), d)
+    # a task that is BOTH malformed and lists a dependency twice: which of the two errors is reported is an accident of
+    # the order of checks inside _materialize_raw_task, outside the model's abstraction (Bad | Good deps): keep them apart
+    for t in tasks:
+        if t.status == 1:
+            seen = []
+            for d in t.deps:
+                if d not in seen:
+                    seen.append(d)
+            t.deps = seen
 
 
 def rand_case(rng, nmax=9, defects=0.0, fail=0.3, stop=0.25, again=0.15):
